@@ -94,7 +94,7 @@ def nks_for(prop: str, tier: str, rule: str, member) -> list[tuple[int, int]]:
 
 def modes_for(prop: str, tier: str, seed: int, member) -> list[str]:
     if prop == "C02":
-        modes = ["I", "IO", "G", "GO"] + [f"IO:{i}" for i in range(5)] + ["IO:4,3,2,1,0", "IO:4,3", "GO:4,3"]
+        modes = ["I", "IO", "G", "GO"] + [f"IO:{i}" for i in range(5)] + ["IO:4,3,2,1,0", "IO:4,3", "GO:4,3", "IO:0,1,2,3,4,0,1,2,3,4", "IO:3,4,3", "GO:3,4,3"]
         if tier == "thorough":
             modes += [f"GO:{i}" for i in range(5)]
             rnd = random.Random(f"{seed}/{member['id']}")
